@@ -137,6 +137,67 @@ def lazy_cases(trees):
     return out
 
 
+def lazy_lines_cases(trees, rnd, limit):
+    """ONE matcher applied to SEVERAL models, one after the other (the lines of a text under `filter`): pairs of
+    trees of the same shape whose leaves have other values; line 1 of the text sees the values of the first tree,
+    line 2 those of the second.  Every leaf is a program that logs (leaf number, line) and decides by the line it is
+    given: for EVERY line the operands must be evaluated left to right, lazily - the log of each line is the one
+    the specification gives for that tree."""
+    by_shape = {}
+    for c in trees:
+        if c['layout'] != ['min', 'none'] or c['d']['r'] == 'ERR':
+            continue
+        n_leaves = sum(1 for t in c['ts'] if t in ('T', 'F'))
+        if not (2 <= n_leaves <= 4):
+            continue
+        by_shape.setdefault(json.dumps(['L' if t in ('T', 'F') else t for t in c['ts']]), []).append(c)
+    pairs = []
+    for shape, cs in sorted(by_shape.items()):
+        for a in cs:
+            for b in cs:
+                if a is not b:
+                    pairs.append((a, b))
+    if len(pairs) > limit:
+        pairs = rnd.sample(pairs, limit)
+    out = []
+    for a, b in pairs:
+        leaf_pos = [i + 1 for i, t in enumerate(a['ts']) if t in ('T', 'F')]
+        toks = []
+        for i, t in enumerate(a['ts']):
+            if t in ('T', 'F'):
+                k = leaf_pos.index(i + 1) + 1
+                toks.append('contents ( run -rel-home lp.sh %d %d %d )' % (k, 0 if t == 'T' else 1,
+                                                                         0 if b['ts'][i] == 'T' else 1))
+            else:
+                toks.append(t)
+        exp_log = [[leaf_pos.index(p) + 1, 1] for p in a['d']['log']] + [[leaf_pos.index(p) + 1, 2] for p in b['d']['log']]
+        kept = [n for n, c in ((1, a), (2, b)) if c['d']['r'] == 'T']
+        out.append(dict(text='[setup]\nfile out.txt = -contents-of -rel-home two.txt -transformed-by filter ( %s )\n'
+                             % ' '.join(toks), exp_log=exp_log, kept=kept, ts=[a['ts'], b['ts']]))
+    return out
+
+
+def exec_lines_case(task, cd):
+    from harness import inproc
+    log = os.path.join(cd.out, 'log')
+    cd.write({'c.case': task['text'], 'two.txt': '1\n2\n',
+              'lp.sh': '#!/bin/sh\nread line\necho "$1 $line" >> %s\nif [ "$line" = 1 ]; then exit $2; else exit $3; fi\n' % log},
+             mode={'lp.sh': 0o755})
+    r = inproc.run_main(['--keep', 'c.case'], cd)
+    res = dict(exit=r['exit'], exception=r['exception'], ident=(r['stdout'].splitlines() or [''])[0], stderr=r['stderr'][:300],
+               log=None, kept=None)
+    if os.path.exists(log):
+        res['log'] = [[int(x) for x in l.split()] for l in open(log).read().splitlines() if l.strip()]
+    else:
+        res['log'] = []
+    sds = r['stdout'].strip()
+    if r['exit'] == 0 and sds and os.path.isdir(sds):
+        p = os.path.join(sds, 'act', 'out.txt')
+        if os.path.exists(p):
+            res['kept'] = [int(x) for x in open(p).read().split()]
+    return res
+
+
 def run(ctx):
     quick = ctx.tier == 'quick'
     ls, lt = (5, 6) if quick else (6, 9)
@@ -235,6 +296,21 @@ def run(ctx):
     ctx.cov['replay']['laziness (run primitives that log)'] = dict(cases=len(lz), disagreements=bad)
     if not lz:
         raise core.MachineryFailure('no laziness cases')
+    lz2 = lazy_lines_cases(trees, rnd, 1200 if quick else 20000)
+    if len(lz2) < 200:
+        raise core.MachineryFailure('only %d laziness cases over several lines' % len(lz2))
+    with ctx.pool() as pool:
+        obs2 = pool.map('harness.props.c06:exec_lines_case', lz2, deadline=60, chunk=8)
+    bad2 = 0
+    for c, o in zip(lz2, obs2):
+        ctx.count()
+        ctx.nontrivial('lazy-lines:' + json.dumps(c['ts']))
+        if o.get('exit') != 0 or o.get('log') != c['exp_log'] or o.get('kept') != c['kept']:
+            bad2 += 1
+            ctx.fail('LazyLeftToRight (one matcher, two lines) tokens=%s / %s' % (' '.join(c['ts'][0]), ' '.join(c['ts'][1])),
+                     dict(kind='lazy-lines', case=c, observed=o))
+    ctx.cov['traces_validated_against_impl'] += len(lz2)
+    ctx.cov['replay']['laziness, one matcher applied to two lines'] = dict(cases=len(lz2), disagreements=bad2)
     # negative control: a wrong verdict must be rejected by the mapping
     tried = rejected = 0
     for c in rnd.sample(wellformed, min(30, len(wellformed))):
@@ -269,6 +345,9 @@ def replay(ctx, rec):
             o = pool.map('harness.props.c06:exec_case', [r['case']], deadline=60)[0]
             ident, code = EXP[r['case']['exp']]
             ok = o.get('exit') == code and o.get('ident') == ident and o.get('log') == r['case']['exp_log']
+        elif r['kind'] == 'lazy-lines':
+            o = pool.map('harness.props.c06:exec_lines_case', [r['case']], deadline=60)[0]
+            ok = o.get('exit') == 0 and o.get('log') == r['case']['exp_log'] and o.get('kept') == r['case']['kept']
         else:
             o = pool.map('harness.props.c06:exec_case', [dict(text=r['text'])], deadline=60)[0]
             ok = any(o.get('exit') == EXP[k][1] and o.get('ident') == EXP[k][0] for k in r['acceptable'])
